@@ -1,8 +1,10 @@
 """C08  Resampled values use exactly the recent, non-future input samples.
 
-  C08.EDGE    both window edges use the function `bisect` resolves to (bisect.bisect_right), keyed
-              by the sample timestamp: left edge exclusive at T - age, right edge inclusive at T; the
-              slice is islice(buffer, min_index, max_index) in buffer order.
+  C08.EDGE    the relevant samples are one contiguous selection of the buffer in buffer order, left
+              edge exclusive at T - age, right edge inclusive at T, ordered by the sample timestamp:
+              islice(buffer, lo, hi) or list(buffer)[lo:hi] with both indices from what `bisect`
+              resolves to (bisect.bisect_right) keyed by the timestamp, or a comprehension over the
+              buffer filtered by  lo < s.timestamp <= T.
   C08.AGE     minimum_relevant_timestamp == T - max(period, input period) * max_data_age, with the
               input period defaulting to the resampling period while unknown.
   C08.FILTER  samples enter the buffer only via add_sample, only from _receive_samples and only under
